@@ -12,6 +12,10 @@ class HarnessError(Exception):
 # random source
 
 
+class DrawLimit(BaseException):
+    """The code under test keeps drawing from the random source (does not terminate in a bounded number of steps)."""
+
+
 class SimRandom(_random.Random):
     """A random.Random whose every outcome is chosen by a script (the scheduler).
 
@@ -20,6 +24,8 @@ class SimRandom(_random.Random):
     Faithful on empty ranges: raises ValueError exactly like the real source.
     """
 
+    MAX_DRAWS = 256       # per owner object; far beyond what any caller here needs (a liveness bound in steps)
+
     def __init__(self, script=()):
         super().__init__(0)
         self.script = list(script)
@@ -27,6 +33,8 @@ class SimRandom(_random.Random):
         self.log = []
 
     def _next_index(self, width):
+        if self.cursor >= self.MAX_DRAWS:
+            raise DrawLimit(f"more than {self.MAX_DRAWS} draws from the simulated random source")
         if self.cursor < len(self.script):
             idx = self.script[self.cursor]
         else:
